@@ -232,6 +232,62 @@ func fieldIntroductions(r *Run, field *types.Var) []token.Pos {
 		}
 		info := p.TypesInfo
 		propagates := func(e ast.Expr) bool {
+			// a value computed from the same field (rewrite(x.F, …), Copy(x.F)) propagates, it does not introduce
+			selfDerived := false
+			ast.Inspect(e, func(n ast.Node) bool {
+				if x, isSel := n.(*ast.SelectorExpr); isSel {
+					if s := info.Selections[x]; s != nil && s.Obj() == field {
+						if _, isCall := ast.Unparen(e).(*ast.CallExpr); isCall {
+							selfDerived = true
+						}
+					}
+				}
+				return true
+			})
+			if selfDerived {
+				return true
+			}
+			// a local defined from a call that takes the same field: `v, err := rewrite(x.F); …; x.F = v`
+			if id, isId := ast.Unparen(e).(*ast.Ident); isId {
+				if obj := info.Uses[id]; obj != nil {
+					derived := false
+					for _, f := range p.Syntax {
+						if f.Pos() > id.Pos() || id.Pos() > f.End() {
+							continue
+						}
+						ast.Inspect(f, func(n ast.Node) bool {
+							as, ok := n.(*ast.AssignStmt)
+							if !ok || len(as.Rhs) != 1 {
+								return true
+							}
+							defines := false
+							for _, l := range as.Lhs {
+								if lid, ok := l.(*ast.Ident); ok && info.Defs[lid] == obj {
+									defines = true
+								}
+							}
+							if !defines {
+								return true
+							}
+							if _, isCall := ast.Unparen(as.Rhs[0]).(*ast.CallExpr); !isCall {
+								return true
+							}
+							ast.Inspect(as.Rhs[0], func(m ast.Node) bool {
+								if x, isSel := m.(*ast.SelectorExpr); isSel {
+									if s := info.Selections[x]; s != nil && s.Obj() == field {
+										derived = true
+									}
+								}
+								return true
+							})
+							return true
+						})
+					}
+					if derived {
+						return true
+					}
+				}
+			}
 			// true when every leaf of e is a selection of the same field or a zero constant
 			ok := true
 			leaf := false
